@@ -61,6 +61,7 @@ type Impl struct {
 	DefS    StreamProg
 	invoked map[string]int
 	Returned map[string]uint64
+	UnaryReturned map[string]uint64
 	// NilReply makes Unary return a nil reply for programs that return nil bytes and nil error? no: see UnaryRaw
 }
 
@@ -103,6 +104,12 @@ func (s *Impl) Unary(ctx context.Context, req *BV) (*BV, error) {
 		return &BV{Value: req.GetValue()}, nil
 	}
 	out, err := p(ctx, tag, req.GetValue())
+	s.mu.Lock()
+	if s.UnaryReturned == nil {
+		s.UnaryReturned = map[string]uint64{}
+	}
+	s.UnaryReturned[tag] = Tick()
+	s.mu.Unlock()
 	if err != nil {
 		if out != nil {
 			return &BV{Value: out}, err
@@ -137,6 +144,17 @@ func (s *Impl) Stream(kind string, ss grpc.ServerStream) error {
 
 // Tick is set by the harness to the global logical clock.
 var Tick = func() uint64 { return 0 }
+
+// UnaryReturnedAt reports the logical time at which the unary handler for tag returned.
+func (s *Impl) UnaryReturnedAt() map[string]uint64 {
+	s.mu.Lock()
+	defer s.mu.Unlock()
+	out := map[string]uint64{}
+	for k, v := range s.UnaryReturned {
+		out[k] = v
+	}
+	return out
+}
 
 // ReturnedAt reports the logical time at which the stream handler for tag returned (0 = not yet).
 func (s *Impl) ReturnedAt() map[string]uint64 {
